@@ -6,6 +6,7 @@ import (
 	"fmt"
 	"io"
 	"math/rand"
+	"runtime"
 	"strings"
 	"sync"
 	"time"
@@ -48,6 +49,7 @@ type ctl struct {
 	sb      blob.SizedRef // what the replica returned to the replica store
 	err     error
 	doneSeq int64
+	handed  []byte // the bytes the replica read from the reader the replica store gave it
 }
 
 func newCtl(held bool) *ctl {
@@ -87,8 +89,10 @@ func (t *turnstile) ReceiveBlob(ctx context.Context, br blob.Ref, src io.Reader)
 	}
 	close(c.arrived)
 	<-c.open
-	sb, err := t.Storage.ReceiveBlob(ctx, br, src)
-	c.sb, c.err = sb, err
+	// record what the replica reads, when it reads it (a slow replica reads late)
+	var rec bytes.Buffer
+	sb, err := t.Storage.ReceiveBlob(ctx, br, io.TeeReader(src, &rec))
+	c.sb, c.err, c.handed = sb, err, rec.Bytes()
 	c.doneSeq = inject.Seq()
 	close(c.done)
 	return sb, err
@@ -100,7 +104,7 @@ type wcase struct {
 	M        int    `json:"minWritesForSuccess"`
 	Distinct bool   `json:"distinct_read_backends"`
 	Modes    []int  `json:"-"`
-	Sched    string `json:"schedule"` // free | free-early | free-late | perm
+	Sched    string `json:"schedule"` // free | free-early | free-late | free-late-overlap | perm
 	Order    []int  `json:"completion_order,omitempty"`
 }
 
@@ -205,6 +209,7 @@ func casesFor(r *ev.Run, n, m int, distinct bool) []wcase {
 		if c.hasSlow() {
 			add(modes, "free-early", nil)
 			add(modes, "free-late", nil)
+			add(modes, "free-late-overlap", nil)
 		} else {
 			add(modes, "free", nil)
 		}
@@ -312,9 +317,9 @@ func writeJobs(r *ev.Run) []job {
 	return jobs
 }
 
-func caseBlob(seed int64, id string, j int) sto.Blob {
-	if j == 0 {
-		return sto.FromBytes(nil) // the empty blob, once per store
+func caseBlob(seed int64, id string, j int, empty bool) sto.Blob {
+	if empty {
+		return sto.FromBytes(nil) // the empty blob (removed from the replicas' memory stores after its case, so that it is fresh again)
 	}
 	pad := []int{0, 1, 7, 100, 1000, 3}[j%6]
 	if j%50 == 49 {
@@ -342,10 +347,31 @@ func runWriteShard(r *ev.Run, n, m int, distinct bool, shard int, cases []wcase)
 		r.Note("read_backends", "same")
 	}
 	var used []sto.Blob
+	usedEmpty := false
+	erng := r.Rand(fmt.Sprintf("wempty/%s/%d", cl.cfg(), shard))
 	for j := range cases {
-		b := caseBlob(r.Seed, cases[j].ID, j)
-		used = append(used, b)
-		if !runWriteCase(r, cl, &cases[j], b) {
+		// the empty blob meets the first case of the shard and a seeded ~1/12 of all others, whatever
+		// their fault assignment and schedule
+		empty := j == 0 || erng.Intn(12) == 0
+		b := caseBlob(r.Seed, cases[j].ID, j, empty)
+		if !empty || !usedEmpty {
+			used = append(used, b)
+		}
+		usedEmpty = usedEmpty || empty
+		var filler *sto.Blob
+		if cases[j].Sched == "free-late-overlap" {
+			fb := sto.FromBytes([]byte(fmt.Sprintf("C12-overlap|%d|%s|%s", r.Seed, cases[j].ID, strings.Repeat("y", len(b.Data)))))
+			filler = &fb
+			used = append(used, fb)
+		}
+		ok := runWriteCase(r, cl, &cases[j], b, filler)
+		if empty {
+			r.Note("empty_blob_class", cases[j].class())
+			for _, nd := range cl.w {
+				nd.mem.RemoveBlobs(context.Background(), []blob.Ref{b.Ref})
+			}
+		}
+		if !ok {
 			return // the store is no longer usable (a call never came back)
 		}
 	}
@@ -401,12 +427,16 @@ func waitFor(ch chan struct{}, d time.Duration) bool {
 
 // runWriteCase performs one receive under the case's fault assignment and schedule, then judges it
 // from the recorded event order.  It returns false when the cluster cannot be used any more.
-func runWriteCase(r *ev.Run, cl *cluster, wc *wcase, b sto.Blob) bool {
+//
+// filler (schedule free-late-overlap): a second blob that is received through the same replica store
+// while the gated stragglers of this receive are still pending, if the receive returned without them.
+func runWriteCase(r *ev.Run, cl *cluster, wc *wcase, b sto.Blob, filler *sto.Blob) bool {
 	n := cl.n
 	ctls := make([]*ctl, n)
 	idx := make([]int64, n)
 	for i, nd := range cl.w {
-		idx[i] = nd.plan.Calls() // this receive is the idx-th ReceiveBlob on replica i
+		nd.evBase = len(nd.wrap.StoredEvents()) // earlier events (the empty blob is re-used) belong to earlier cases
+		idx[i] = nd.plan.Calls()                // this receive is the idx-th ReceiveBlob on replica i
 		if wc.Modes[i] != mOK {
 			nd.plan.FaultAt(idx[i], injModes[wc.Modes[i]])
 		}
@@ -482,7 +512,7 @@ func runWriteCase(r *ev.Run, cl *cluster, wc *wcase, b sto.Blob) bool {
 				openBarrier(i, false)
 			}
 		}
-	case "free-late":
+	case "free-late", "free-late-overlap":
 		// the non-gated replicas finish first; the gated ones are released only after ReceiveBlob
 		// returned, or once it is clear (bounded wait, action selection only) that it is blocked on them.
 		for i := range cl.w {
@@ -491,6 +521,31 @@ func runWriteCase(r *ev.Run, cl *cluster, wc *wcase, b sto.Blob) bool {
 			}
 		}
 		blocked := !waitFor(ret, pickWait)
+		if filler != nil {
+			if blocked {
+				r.Note("overlap", "not-possible-call-waits-for-slow-replica")
+			} else {
+				// the call returned while its slow replicas still hold their copy of the upload:
+				// receive another blob through the same store before they are released
+				for i, nd := range cl.w {
+					if wc.Modes[i] != mSlow {
+						continue
+					}
+					// the gated call must have taken its call index before the filler's call on the same replica
+					if !waitFor(ctls[i].arrived, watchdog) || !ev.WithTimeout(watchdog, func() {
+						for nd.plan.Calls() <= idx[i] {
+							runtime.Gosched()
+						}
+					}) {
+						return stuck(fmt.Sprintf("call of replica %d", i))
+					}
+				}
+				if !sideReceive(r, cl, wc, *filler) {
+					return stuck("the overlapping receive")
+				}
+				r.Note("overlap", "second-receive-while-straggler-pending")
+			}
+		}
 		for i := range cl.w {
 			if wc.Modes[i] == mSlow {
 				openBarrier(i, blocked)
@@ -558,7 +613,7 @@ func runWriteCase(r *ev.Run, cl *cluster, wc *wcase, b sto.Blob) bool {
 
 func storedEvent(nd *node, ref blob.Ref) (inject.StoreEvent, bool) {
 	evs := nd.wrap.StoredEvents()
-	for i := len(evs) - 1; i >= 0; i-- {
+	for i := len(evs) - 1; i >= nd.evBase && i >= 0; i-- {
 		if evs[i].Ref == ref {
 			return evs[i], true
 		}
@@ -601,6 +656,14 @@ func judgeWrite(r *ev.Run, cl *cluster, wc *wcase, b sto.Blob, ctls []*ctl, sb b
 	}
 	if wc.N == 3 && wc.Sched == "perm" && class == "quorum-needs-slow-replica" {
 		r.Sample(wit)
+	}
+
+	// What the replica store handed to its replicas under this ref.  A replica that is given other
+	// bytes cannot store the blob: a verifying backend rejects them although it is healthy, a
+	// non-verifying one (most are; blobserver.Receive verifies once, above the replica store)
+	// holds and serves garbage under the blob's ref.
+	if !checkHanded(r, cl, b, ctls, wit) {
+		return
 	}
 
 	// Harness self-check: every replica behaved as assigned (else the case says nothing).
@@ -680,9 +743,97 @@ func judgeWrite(r *ev.Run, cl *cluster, wc *wcase, b sto.Blob, ctls []*ctl, sb b
 		}
 	}
 
+	// Quiescent replica contents: a replica that holds something under this ref holds the blob's bytes
+	// (a replica that stored other bytes of the right size has not stored the blob).
+	checkBytes(r, cl, b, wit)
+
 	// Quiescent read-back: the blob is fetchable / stat'able through the replica store iff some
 	// READ replica holds it now (all replicas have finished this receive).
 	readBack(r, cl, b, "after-write", wit)
+}
+
+func checkHanded(r *ev.Run, cl *cluster, b sto.Blob, ctls []*ctl, wit any) bool {
+	ok := true
+	for i, nd := range cl.w {
+		c := ctls[i]
+		if !closed(c.done) {
+			continue
+		}
+		r.Eval(1)
+		r.Count("replica_input_compared", 1)
+		// every replica mode of this harness reads its input to the end (the injected error drains it)
+		if !bytes.Equal(b.Data, c.handed) {
+			ok = false
+			r.Violation(fmt.Sprintf("replica-handed-wrong-bytes/n%dm%d", cl.n, cl.m),
+				fmt.Sprintf("[%s] the replica store gave replica %s %d bytes under %v that are not the blob's %d bytes (first difference at offset %d); the replica answered (%v, %v)", cl.cfg(), nd.name, len(c.handed), b.Ref, len(b.Data), firstDiff(string(c.handed), string(b.Data)), c.sb, c.err), wit)
+		}
+	}
+	return ok
+}
+
+func checkBytes(r *ev.Run, cl *cluster, b sto.Blob, wit any) {
+	for _, nd := range cl.w {
+		s, ok := nd.mem.BlobContents(b.Ref)
+		if !ok {
+			continue
+		}
+		r.Eval(1)
+		r.Count("replica_bytes_compared", 1)
+		if s != string(b.Data) {
+			r.Violation("replica-stored-wrong-bytes/after-write",
+				fmt.Sprintf("[%s] replica %s holds %d bytes under %v that are not the blob's %d bytes (first difference at offset %d)", cl.cfg(), nd.name, len(s), b.Ref, len(b.Data), firstDiff(s, string(b.Data))), wit)
+		}
+	}
+}
+
+func firstDiff(a, b string) int {
+	for i := 0; i < len(a) && i < len(b); i++ {
+		if a[i] != b[i] {
+			return i
+		}
+	}
+	return min(len(a), len(b))
+}
+
+// sideReceive receives fb through the replica store with every replica healthy (no fault is planned
+// at these call indices) and waits until every replica has finished it.  It returns false when
+// something never came back.
+func sideReceive(r *ev.Run, cl *cluster, wc *wcase, fb sto.Blob) bool {
+	ctls := make([]*ctl, cl.n)
+	for i, nd := range cl.w {
+		ctls[i] = newCtl(false)
+		nd.ts.set(fb.Ref, ctls[i])
+	}
+	defer func() {
+		for _, nd := range cl.w {
+			nd.ts.set(fb.Ref, nil)
+		}
+	}()
+	var sb blob.SizedRef
+	var err error
+	if !ev.WithTimeout(watchdog, func() {
+		sb, err = blobserver.Receive(context.Background(), cl.s, fb.Ref, bytes.NewReader(fb.Data))
+	}) {
+		return false
+	}
+	for i := range cl.w {
+		if !waitFor(ctls[i].done, watchdog) {
+			return false
+		}
+	}
+	nm := fmt.Sprintf("n%dm%d", cl.n, cl.m)
+	wit := map[string]any{"case_id": wc.ID, "case": wc, "overlapping_blob": fb.Ref.String()}
+	r.Eval(1)
+	r.Count("overlapping_receives", 1)
+	switch {
+	case err != nil:
+		r.Violation("error-despite-quorum/"+nm, fmt.Sprintf("[%s] a receive of %v with all %d replicas healthy, issued while stragglers of an earlier receive were pending, failed: %v", cl.cfg(), fb.Ref, cl.n, err), wit)
+	case sb.Ref != fb.Ref || int(sb.Size) != len(fb.Data):
+		r.Violation("wrong-size-acked/"+nm, fmt.Sprintf("[%s] receive of %v (%d bytes) acknowledged %v", cl.cfg(), fb.Ref, len(fb.Data), sb), wit)
+	}
+	checkHanded(r, cl, fb, ctls, wit)
+	checkBytes(r, cl, fb, wit)
+	return true
 }
 
 // readBack compares fetch and single stat of b through the replica store with the contents of the
